@@ -41,10 +41,31 @@ func CheckRootSchema(rootSchema *schema.Schema) {
 	for name := range types {
 		names = append(names, name)
 	}
-	sort.Strings(names)
+	sort.Slice(names, func(i, j int) bool {
+		a, b := types[names[i]], types[names[j]]
+		ua, ub := isUnnamed(names[i]), isUnnamed(names[j])
+		if ua && ub {
+			// The name of an unnamed type is the address of its schema: use
+			// its place in the source instead.
+			if fa, fb := a.RootFile().Name(), b.RootFile().Name(); fa != fb {
+				return fa < fb
+			}
+			if a.Begin() != b.Begin() {
+				return a.Begin() < b.Begin()
+			}
+		}
+		if ua != ub {
+			return ua
+		}
+		return names[i] < names[j]
+	})
 	for _, name := range names {
 		c.checkType(name, types[name], types)
 	}
+}
+
+func isUnnamed(name string) bool {
+	return len(name) > 0 && name[0] == '#'
 }
 
 func (c *checkSchema) checkType(name string, typ schema.Type, ss map[string]schema.Type) {
